@@ -13,6 +13,8 @@ import sched
 
 TRACE_EVENTS = False
 LAST_EVENTS = []
+PHASE2_COL = None
+LAST_VALS2 = {}
 
 
 def render(col, same, cross):
@@ -59,6 +61,18 @@ def run_program(cols, rows, prog, perm):
   # the order in which the engine's first full work list processes the columns (items pop from the end)
   first = next((list(reversed(s)) for s in seen if len(s) == len(cols)), [])
   LAST_EVENTS[:] = tracer.events if tracer else []
+  # Phase 2 (histories): a later bundle replaces one column's formula by a constant - which breaks every
+  # cycle through it - and everything must again equal the from-scratch meaning of the NEW program,
+  # whatever order the first bundle was evaluated in (dependency edges recorded during phase 1 decide
+  # what gets recalculated now).
+  vals2 = {}
+  if PHASE2_COL is not None:
+    eng._make_sorted_work_items = orig_make
+    adapter.apply(eng, [['ModifyColumn', 'T', PHASE2_COL, {'formula': '1'}]])
+    _rows2, colvals2 = adapter.fetch_all(eng)['T']
+    vals2 = {c: [value_of(v) for v in colvals2[c]] for c in cols}
+  LAST_VALS2.clear()
+  LAST_VALS2.update(vals2)
   return {c: [value_of(v) for v in colvals[c]] for c in cols}, sig, first
 
 
@@ -131,11 +145,17 @@ def main():
     perms = allperms if args.get("perms", "all") == "all" else \
         [allperms[0]] + rng.sample(allperms, min(len(allperms), args["perms"]))
     ref_sig = None
-    for perm in perms:
+    global PHASE2_COL
+    for pi, perm in enumerate(perms):
+      # the column whose formula phase 2 replaces rotates with the permutation index
+      PHASE2_COL = cols[pi % len(cols)] if args.get("phase2", True) else None
       case = {"cols": cols, "rows": rows, "same": prog["same"], "cross": prog["cross"], "perm": list(perm),
-              "vals": {c: [] for c in cols}, "exc": "", "sig": "", "ref_sig": "", "order_seen": []}
+              "vals": {c: [] for c in cols}, "exc": "", "sig": "", "ref_sig": "", "order_seen": [],
+              "col2": PHASE2_COL or "", "vals2": {c: [] for c in cols}}
       try:
         case["vals"], case["sig"], case["order_seen"] = run_program(cols, rows, prog, perm)
+        if PHASE2_COL:
+          case["vals2"] = dict(LAST_VALS2)
         if TRACE_EVENTS:
           traces.append({"tid": "%d/%s" % (len(traces), "".join(perm)), "same": prog["same"],
                          "cross": prog["cross"], "events": list(LAST_EVENTS)})
